@@ -36,6 +36,7 @@ from .fortran_funcs import fortran_funcs
 from ..parser import replace
 
 # external _imports
+import importlib
 import subprocess
 import sys
 import os
@@ -50,6 +51,9 @@ from typing import Optional, Dict, List, Union, Tuple, Iterable, Callable
 __author__ = "Richard Gast"
 __status__ = "development"
 
+
+# names of the extension modules that have been built (and imported) in this process
+_built_modules = set()
 
 # backend classes
 #################
@@ -279,8 +283,16 @@ class FortranBackend(BaseBackend):
         # `self._fname`), and surface any compiler errors as a Python
         # exception instead of letting the next `import` line fail with an
         # opaque ImportError.
+        # An extension module cannot be imported a second time under a name that has been imported in this process
+        # before (python would hand out the routine that was built first), and a python module of the same name (e.g.
+        # the file written by another backend) would shadow it: use a fresh module name in those cases.
+        modname, i = self._fname, 0
+        while modname in _built_modules or modname in sys.modules:
+            i += 1
+            modname = f"{self._fname}_{i}"
+        _built_modules.add(modname)
         completed = subprocess.run(
-            [sys.executable, '-m', 'numpy.f2py', '-c', '-m', self._fname, file],
+            [sys.executable, '-m', 'numpy.f2py', '-c', '-m', modname, file],
             capture_output=True, text=True,
         )
         if completed.returncode != 0:
@@ -292,9 +304,8 @@ class FortranBackend(BaseBackend):
             )
 
         # import function from temporary file
-        exec(f"from {self._fname} import {self._fname}", globals())
-        exec(f"rhs_eval = {self._fname}.{func_name}", globals())
-        rhs_eval = globals().pop('rhs_eval')
+        importlib.invalidate_caches()
+        rhs_eval = getattr(getattr(importlib.import_module(modname), self._fname), func_name)
 
         rhs_eval = self._apply_decorator(rhs_eval, **kwargs)
 
